@@ -11,7 +11,9 @@ import ExoVerif.Basic.KV
     x/operator/keeper/opt.go : OptIn, OptOut
   The code is mirrored *as it is*: order of checks, swallowed errors (`errorsmod.Wrap(nil, …)` is
   nil), the protobuf round trip that turns an empty byte string into nil, the symmetric
-  `Difference`, the nil dereference of the epoch hook (outcome `halted`).
+  `Difference` (kept, no longer used by the hook). After the repairs of F-11b / F-20a / F-20b / F-20c no
+  modelled operation panics any more: `halted` stays in the state (a halted chain executes nothing)
+  but nothing sets it; the pre-fix shapes live on as regression counter-examples in Props/C20.lean.
 
   Environment (inputs of the operations, not computed here; they belong to other properties):
   current epoch numbers per identifier, the set of staking assets, the set of registered operators,
@@ -220,7 +222,8 @@ def updateAVS (s : State) (p : AvsParams) : State × String :=
 def isOptedIn (s : State) (op : String) (avs : Addr) : Bool := KV.find? s.opted (op, avs) == some true
 
 /-- opt.go: OptIn. `selfUSD` = GetOrCalculateOperatorUSDValues(...).SelfUSDValue as a raw 18-decimal
-integer (none = the calculation failed). `GetAVSMinimumSelfDelegation` is `LegacyNewDec(int64(min))`. -/
+integer (none = the calculation failed). `GetAVSMinimumSelfDelegation` is
+`LegacyNewDecFromBigInt(new(big.Int).SetUint64(min))` (exact; the pre-fix `int64(min)` wrap is `toI64`). -/
 def optInCore (s : State) (op : String) (avs : Addr) (selfUSD : Option Int) (noOp noAvs : String) : State × String :=
   if !s.operators.contains op then (s, noOp)
   else match KV.find? s.avss avs with
@@ -230,7 +233,7 @@ def optInCore (s : State) (op : String) (avs : Addr) (selfUSD : Option Int) (noO
     else match selfUSD with
     | none => (s, "rej")
     | some usd =>
-      if usd < toI64 a.minSelf * PREC then (s, "ErrMinDelegationNotMet")
+      if usd < (a.minSelf : Int) * PREC then (s, "ErrMinDelegationNotMet")
       else ({ s with opted := KV.set s.opted (op, avs) true }, "ok")
 
 /-- opt.go: OptOut (no operator is jailed or frozen in the modelled histories) -/
@@ -326,7 +329,7 @@ deriving Repr, Inhabited
 def submitOne (s : State) (i : Submit) (task : Task) (cur : Int) : State × String :=
   let key : RKey := (i.op, i.taskAddr, i.id)
   if KV.has s.results key then (s, "ErrResAlreadyExists")
-  else if i.sig.isNone then (s, "ErrParamNotEmptyError")
+  else if (norm i.sig).isNone then (s, "ErrParamNotEmptyError")   -- len(info.BlsSignature) == 0
   else if i.respHash ≠ "" || i.response.isSome then (s, "ErrParamNotEmptyError")
   else if phase1TooLate cur task.startingEpoch task.resp then (s, "ErrSubmitTooLateError")
   else
@@ -398,13 +401,13 @@ def challengeCore (s : State) (c : Challenge) (task : Task) : State × String :=
     else ({ s with challenges := KV.set s.challenges (c.op, c.taskAddr, c.id) c.caller
                    challenged := s.challenged ++ [(c.op, c.taskAddr, c.id)] }, "ok")
 
-/-- keeper.go: RaiseAndResolveChallenge. NB the task-hash mismatch branch returns
-`errorsmod.Wrap(err, …)` with `err == nil`, i.e. nil: success without any record. -/
+/-- keeper.go: RaiseAndResolveChallenge (the task-hash mismatch branch returns ErrHashValue; before
+the repair of F-20b it returned `errorsmod.Wrap(nil, …)` = nil, i.e. success without any record). -/
 def challenge (s : State) (c : Challenge) : State × String :=
   match KV.find? s.tasks (c.taskAddr, c.id) with
   | none => (s, "rej")
   | some task =>
-    if task.hash ≠ c.taskHash then (s, "ok")
+    if task.hash ≠ c.taskHash then (s, "ErrHashValue")
     else match KV.find? s.results (c.op, c.taskAddr, c.id) with
     | none => (s, "rej")
     | some res =>
@@ -415,9 +418,18 @@ def challenge (s : State) (c : Challenge) : State × String :=
 /-! ## epoch end (impl_epoch_hook.go: AfterEpochEnd) -/
 
 /-- types.go: Difference — NOT a set difference: the elements of `b` that are not in `a` are
-returned too. (`a`, `b` duplicate-free here.) -/
+returned too. (`a`, `b` duplicate-free here.) No longer used by the hook (F-20c). -/
 def difference (a b : List String) : List String :=
   sortStr (b.filter (fun x => !a.contains x) ++ a.filter (fun x => !b.contains x))
+
+/-- one copy of every element (the order does not matter: the result is sorted afterwards) -/
+def dedupStr : List String → List String
+  | [] => []
+  | x :: xs => if xs.contains x then dedupStr xs else x :: dedupStr xs
+
+/-- types.go: Subtract — the sorted elements of `a` that are not in `b`, without repeats -/
+def subtract (a b : List String) : List String :=
+  sortStr (dedupStr (a.filter (fun x => !b.contains x)))
 
 structure Powers where
   avsTotal : List (Addr × Int)              -- GetAVSUSDValue (raw)
@@ -439,29 +451,30 @@ def statDue (s : State) (id : String) (n : Int) (t : Task) : Bool :=
 def actualThreshold (total signedTotal : Int) : Nat :=
   ((Dec.mul (Dec.quo ⟨total⟩ ⟨signedTotal⟩) (Dec.ofInt 100)).raw.natAbs) % 2 ^ 64
 
-/-- body of the loop over one group; none = nil dereference (panic) -/
+/-- body of the loop over one group; none = `continue` (no signed result in the group; before the
+repair of F-11b this case dereferenced a nil task and panicked) -/
 def statTask (s : State) (pw : Powers) (t : Task) : Option Task :=
   match signersOf s t.taskAddr t.id with
-  | [] => none          -- taskID = 0, taskAddr = "": GetTaskInfo error ignored, taskInfo == nil
+  | [] => none          -- len(signedOperatorList) == 0: continue
   | signed =>
     let avs := avsAddrOfTask s t.taskAddr
     let powers := signed.map (fun o => (o, KV.getD pw.active (avs, o) 0))
     let opTotal := (powers.map (·.2)).foldl (· + ·) 0
     let total := KV.getD pw.avsTotal avs 0
-    some { t with signed := signed, noSigned := difference t.optIn signed, powers := powers,
+    some { t with signed := signed, noSigned := subtract t.optIn signed, powers := powers,
                   totalPower := total,
                   actualThreshold := if total ≠ 0 && opTotal ≠ 0 then actualThreshold total opTotal else t.actualThreshold }
 
 def hasResults (s : State) (t : Task) : Bool :=
   s.results.any (fun p => p.2.taskAddr == t.taskAddr && p.2.id == t.id)
 
-/-- the loop over the groups: each due task is rewritten; a nil dereference aborts everything -/
+/-- the loop over the groups: each due task with a signed result is rewritten, the others skipped -/
 def statGo (s : State) (pw : Powers) : List ((Addr × Nat) × Task) → List ((Addr × Nat) × Task) →
-    Option (List ((Addr × Nat) × Task))
-  | [], tasks => some tasks
+    List ((Addr × Nat) × Task)
+  | [], tasks => tasks
   | (k, t) :: rest, tasks =>
     match statTask s pw t with
-    | none => none
+    | none => statGo s pw rest tasks
     | some t' => statGo s pw rest (KV.set tasks k t')
 
 /-- tasks whose statistical period ends with epoch `n` of `id` and that have a stored result -/
@@ -470,9 +483,7 @@ def dueTasks (s : State) (id : String) (n : Int) : List ((Addr × Nat) × Task) 
 
 /-- AfterEpochEnd(id, n): every due task that has at least one stored result is rewritten -/
 def epochEnd (s : State) (id : String) (n : Int) (pw : Powers) : State × String :=
-  match statGo s pw (dueTasks s id n) s.tasks with
-  | none => ({ s with halted := true }, "HALT")
-  | some tasks => ({ s with tasks := tasks }, "ok")
+  ({ s with tasks := statGo s pw (dueTasks s id n) s.tasks }, "ok")
 
 /-! ## the step function -/
 
